@@ -4,6 +4,7 @@ from ..rules_flow import Flow, API_MODULES
 from ..rules_alias import A4_params, A3_A5_shared, A7_determinism, nondet_sites
 from ..rules_state import A1_inventory
 from ..rules_tomo import A8_snapshot
+from ..rules_conv import A10_instance_memos
 from ..report import AnalysisError
 from .. import pyfacts
 
@@ -28,6 +29,7 @@ def run(tree, rep, tier):
     # that reach a protected parameter THROUGH them are still propagated by the summaries
     A4_params(rep, flow, modules=[m for m in sorted(prog.modules) if m not in ('linear_index', 'graph_draw')])
     A8_snapshot(rep, flow)
+    A10_instance_memos(rep, flow)
     roots = prog.public_api(["stabilizer_circuits", "mub_circuits", "tomography", "connectivity_support", "stabilizer", "graph", "circuit_lookup"])
     A7_determinism(rep, flow, roots)
     # positive control for the zero-expected rule A7: the test helper must trigger it
